@@ -146,7 +146,7 @@ Allowed(f, s, fk, role) ==
          [] g = "lookup" -> IF own THEN {"absent"} ELSE {"ok", "absent"}   \* a damaged prefix may also hide its neighbours from the binary search
          [] g = "redirect" -> IF own THEN {"err", "absent"} \cup wrongIfUnverified ELSE {"ok"}
          [] g = "range" -> IF s.cls = "idx.ordinal"
-                           THEN (IF own THEN {"absent", "err"} ELSE {"ok"})
+                           THEN (IF own THEN {"absent", "err"} ELSE {"ok", "err"})   \* a reader that validates the ordinals at open fails every read
                            ELSE (IF own THEN {"err", "ok", "absent"} ELSE {"ok", "err", "absent"})
          [] OTHER -> {"err", "ok", "absent"}
 
